@@ -303,7 +303,7 @@ pub fn run(ctx: &mut Ctx) -> Result<(), Violation> {
         ctx.stage("all-4var-functions-x-lists<=2", true, r)?;
     }
 
-    let cases = ctx.tier.pick(100_000, 5_000_000);
+    let cases = ctx.tier.cases(100_000, 5_000_000);
     let r = par_random(ctx, "random", cases, 100, |tape, st| {
         let mut t = Tape::new(tape);
         let f = gen_fun(&mut t, 6, 10);
